@@ -401,7 +401,7 @@ def load_known(pid):
         return []
     with open(fn) as f:
         data = json.load(f)
-    return [k for k in data.get("findings", []) if k.get("property") == pid]
+    return [k for k in data.get("findings", []) if k.get("property") == pid or pid in k.get("also", [])]
 
 
 # ----------------------------------------------------------------------------
